@@ -477,6 +477,30 @@ def fixture_source(pkg, beh):
 
 # ------------------------------------------------------------------ real decoder adapter
 
+SHIPPED = (('udparsers.oe500.oe500', 'parseUDToJson'), ('udparsers.m2c00.m2c00', 'parseUDToJson'), ('srcparsers.oe500.oe500', 'parseSRCToJson'))
+TOUCHED_SHIPPED = [False]
+
+
+def watch_shipped():
+    """wrap the entry points of the three shipped parser modules so that a decode which reaches one of them is noticed.  The PEL
+    checks C01-C05, C08-C12 use environments without those modules (they are C18's and C20's subject, with their own models), so a
+    generated or corrupted input that happens to name one of them is skipped there instead of being compared with the wrong model."""
+    for mod, fn in SHIPPED:
+        try:
+            m = importlib.import_module(mod)
+        except Exception:
+            continue
+        f = getattr(m, fn, None)
+        if f is None or getattr(f, '_verif_watch', False):
+            continue
+
+        def wrapper(*a, _f=f, **k):
+            TOUCHED_SHIPPED[0] = True
+            return _f(*a, **k)
+        wrapper._verif_watch = True
+        setattr(m, fn, wrapper)
+
+
 def real_decode(data, cfg=None, allow_plugins=True):
     """('doc', eid, canonical document) | ('nodoc', stderr) | ('error', class name, message)"""
     from pel.peltool import peltool
@@ -495,6 +519,8 @@ def real_decode(data, cfg=None, allow_plugins=True):
         c.plid = '00000000'
     c.allow_plugins = allow_plugins
     err, out = io.StringIO(), io.StringIO()
+    watch_shipped()
+    TOUCHED_SHIPPED[0] = False
     try:
         with redirect_stderr(err), redirect_stdout(out), common.deadline(common.call_limit()):
             eid, text = peltool.parsePEL(DataStream(data, byte_order='big', is_signed=False), c, False)
